@@ -4,6 +4,7 @@ import (
 	"fmt"
 	"math/rand"
 	"net/http"
+	"os"
 	"sync"
 	"time"
 
@@ -45,6 +46,7 @@ func RacePassMain(reps int) {
 	defer g.Restore()
 	saml.RandReader = rand2.Reader // the recording reader the other checks use is not goroutine-safe; crypto/rand is
 	hs := c20Handlers()
+	hangs := 0
 	runPar := func(name string, bodies []func()) {
 		fmt.Printf("RUN %s\n", name)
 		start := make(chan struct{})
@@ -65,6 +67,11 @@ func RacePassMain(reps int) {
 		case <-done:
 		case <-time.After(5 * time.Second):
 			fmt.Printf("DEADLOCK-TIMEOUT %s\n", name)
+			if hangs++; hangs >= 3 {
+				// three scenarios that never finished are enough to report; each further one would cost another 5 s
+				fmt.Printf("RACEPASS-ABANDONED after %d scenarios that did not finish\n", hangs)
+				os.Exit(3)
+			}
 		}
 	}
 	seed := int64(1)
